@@ -739,10 +739,13 @@ def exec_history(hist, workdir, collect=None, light=False):
                   pred += np.stack(kern.rxn_cov_list).dot(np.asarray(kern.alpha))
               resid = R["y"] - pred
               nn = R["noise"] ** 2 * (1.0 if op["x"] is None else (op["sigma_min"] + op["x"][1] ** 2)) + EPS
-              want = nn * R["amol"]
-              # pred = Kmn^T (Kmm+eps)^-1 Kmn amol up to eps-regularisation effects
-              sc = np.abs(R["y"]).max() + np.abs(pred).max()
-              if np.abs(resid - want).max() > 1e-6 * sc:
+              # with the package's own reaction weights: resid - nn*amol = y - K amol is the residual
+              # of the package's solve, which a backward-stable solver bounds by eps*|K||amol| (that
+              # can exceed eps*|y| by up to cond(K)); the scale below is that bound's natural unit
+              am_r = am if am.shape == R["amol"].shape else R["amol"]
+              want = nn * am_r
+              sc = np.abs(R["K"]).sum(1).max() * np.abs(am_r).max() + np.abs(R["y"]).max() + np.abs(pred).max()
+              if np.abs(resid - want).max() > 1e-8 * sc:
                   V("fit:residual:not-noise-times-weights", "step %d: max dev %.3g scale %.3g" % (step, np.abs(resid - want).max(), sc))
               summary["alphas"].append([np.asarray(k.alpha).tolist() for k in gp.kernels])
               for kern in gp.kernels:
